@@ -269,4 +269,247 @@ theorem distribute_partition (key1 key2 na : String) (tbl : Nat → Grep.Rec)
 example : dualClass "sample" "" "NA" exR5 = ("NA", "") ∧
     dualClass "count" "dir" "NA" exR5 = ("5", "NA") := by decide
 
+/-! ## 5. obiannotate applies every requested edit and changes nothing else -/
+
+/-- the worker built by `CLIAnnotationWorker` is the chain of the requested edits: one worker per
+option that is given, none for an option that is not, in the fixed order clear, set-identifier,
+delete-tag, keep, rename-tag, length, set-tag, cut -/
+theorem annotate_exact (O : Annotate.Oracles) (o : AnnotOpts) (r : Rec) :
+    annotate O o r = applyAll (requestedEdits O o) r ∧
+    requestedEdits O o =
+      (if o.clearAll then [clearAll] else []) ++
+      (if o.setId ≠ "" then [editId O o.setId] else []) ++
+      (if o.toBeDeleted ≠ [] then [deleteAttributes o.toBeDeleted] else []) ++
+      (if o.keepOnly ≠ [] then [keepAttributes o.keepOnly] else []) ++
+      (if o.toBeRenamed ≠ [] then [renameAttributes o.toBeRenamed] else []) ++
+      (if o.setSeqLength then [addSeqLength] else []) ++
+      (if o.evalAttribute ≠ [] then [evalAttributes O o.evalAttribute] else []) ++
+      (if o.cut.1 ≠ 0 ∧ o.cut.2 ≠ 0 then [cutSequence o.cut.1 o.cut.2] else []) :=
+  ⟨rfl, rfl⟩
+
+/-- `ChainWorkers` is sequential composition: the edits of `a`, then those of `b` on the result; a
+record an edit fails on (expression that cannot be evaluated, empty cut) is dropped and a panic is a
+panic, whatever follows -/
+theorem chain_semantics (a b : List Edit) (r : Rec) :
+    applyAll (a ++ b) r = (applyAll a r).bind (applyAll b) ∧
+    applyAll [] r = .ok r ∧
+    (∀ e, applyAll [e] r = e r) := by
+  refine ⟨applyAll_append a b r, rfl, ?_⟩
+  intro e
+  rw [applyAll_cons]
+  cases e r <;> rfl
+
+/-- no option given: the record is unchanged -/
+theorem annotate_nothing (O : Annotate.Oracles) (r : Rec) : annotate O {} r = .ok r := by
+  simp [annotate, requestedEdits, applyAll]
+
+/-- **the sequence is changed by `--cut` only** -/
+theorem annotate_keeps_sequence (O : Annotate.Oracles) (o : AnnotOpts) (r r' : Rec)
+    (hcut : o.cut.1 = 0 ∨ o.cut.2 = 0) (h : annotate O o r = .ok r') : r'.seq = r.seq := by
+  refine applyAll_keeps (·.seq) (requestedEdits O o) ?_ r r' h
+  intro e he
+  unfold requestedEdits at he
+  simp only [List.mem_append] at he
+  rcases he with ((((((he | he) | he) | he) | he) | he) | he) | he <;>
+    obtain ⟨hc, rfl⟩ := mem_ite_singleton he
+  · exact clearAll_keeps_seq
+  · exact editId_keeps _ O _ (fun _ _ => rfl)
+  · exact deleteAttributes_keeps_seq _
+  · exact keepAttributes_keeps_seq _
+  · exact renameAttributes_keeps_seq _
+  · exact addSeqLength_keeps_seq
+  · exact evalAttributes_keeps_seq O _
+  · rcases hcut with h0 | h0
+    · exact absurd h0 hc.1
+    · exact absurd h0 hc.2
+
+/-- **the identifier is changed only by `--set-identifier`, by `--cut` (which appends the cut
+coordinates) and by a `--rename-tag id=…` / `--set-tag id=…`** -/
+theorem annotate_keeps_identifier (O : Annotate.Oracles) (o : AnnotOpts) (r r' : Rec)
+    (hid : o.setId = "") (hcut : o.cut.1 = 0 ∨ o.cut.2 = 0)
+    (hren : ∀ p ∈ o.toBeRenamed, p.1 ≠ "id") (htag : ∀ p ∈ o.evalAttribute, p.1 ≠ "id")
+    (h : annotate O o r = .ok r') : r'.id = r.id := by
+  refine applyAll_keeps (·.id) (requestedEdits O o) ?_ r r' h
+  intro e he
+  unfold requestedEdits at he
+  simp only [List.mem_append] at he
+  rcases he with ((((((he | he) | he) | he) | he) | he) | he) | he <;>
+    obtain ⟨hc, rfl⟩ := mem_ite_singleton he
+  · exact clearAll_keeps_id
+  · exact absurd hid hc
+  · exact deleteAttributes_keeps_id _
+  · exact keepAttributes_keeps_id _
+  · exact renameAttributes_keeps_id _ hren
+  · exact addSeqLength_keeps_id
+  · exact evalAttributes_keeps_id O _ htag
+  · rcases hcut with h0 | h0
+    · exact absurd h0 hc.1
+    · exact absurd h0 hc.2
+
+/-- **an attribute that no option names is unchanged** (present with the same value, or absent):
+no `--clear`, not deleted, kept if `--keep` is used, neither side of a renaming, not `seq_length`
+when `--length` is given, not the key of a `--set-tag` -/
+theorem annotate_keeps_attribute (O : Annotate.Oracles) (o : AnnotOpts) (r r' : Rec) (k : String)
+    (hclear : o.clearAll = false) (hdel : k ∉ o.toBeDeleted)
+    (hkeep : o.keepOnly = [] ∨ k ∈ o.keepOnly)
+    (hren : ∀ p ∈ o.toBeRenamed, k ≠ p.1 ∧ k ≠ p.2)
+    (hlen : o.setSeqLength = false ∨ k ≠ "seq_length")
+    (htag : ∀ p ∈ o.evalAttribute, k ≠ p.1)
+    (h : annotate O o r = .ok r') : r'.attrs.lookup k = r.attrs.lookup k := by
+  refine applyAll_keeps (fun r => r.attrs.lookup k) (requestedEdits O o) ?_ r r' h
+  intro e he
+  unfold requestedEdits at he
+  simp only [List.mem_append] at he
+  rcases he with ((((((he | he) | he) | he) | he) | he) | he) | he <;>
+    obtain ⟨hc, rfl⟩ := mem_ite_singleton he
+  · simp [hclear] at hc
+  · exact editId_keeps _ O _ (fun _ _ => rfl)
+  · intro x x' hx
+    show x'.attrs.lookup k = x.attrs.lookup k
+    rw [deleteAttributes_lookup _ x x' hx k]; simp [hdel]
+  · intro x x' hx
+    show x'.attrs.lookup k = x.attrs.lookup k
+    rw [keepAttributes_lookup _ x x' hx k]
+    rcases hkeep with h0 | h0
+    · exact absurd h0 hc
+    · simp [h0]
+  · exact renameAttributes_keeps_attr _ k hren
+  · intro x x' hx
+    show x'.attrs.lookup k = x.attrs.lookup k
+    rw [addSeqLength_lookup x x' hx k]
+    rcases hlen with h0 | h0
+    · simp [h0] at hc
+    · simp [h0]
+  · exact evalAttributes_keeps_attr O _ k htag
+  · intro x x' hx
+    show x'.attrs.lookup k = x.attrs.lookup k
+    have e : x'.attrs = x.attrs := cutSequence_keeps_attrs _ _ x x' hx
+    rw [e]
+
+/-! ### what each edit does (one worker) -/
+
+/-- `--delete-tag`: exactly the named attributes disappear -/
+theorem delete_effect (ks : List String) (r : Rec) :
+    ∃ r', deleteAttributes ks r = .ok r' ∧ r'.id = r.id ∧ r'.seq = r.seq ∧
+      ∀ k, r'.attrs.lookup k = if k ∈ ks then none else r.attrs.lookup k :=
+  ⟨_, rfl, deleteAttributes_keeps_id ks r _ rfl, deleteAttributes_keeps_seq ks r _ rfl,
+    deleteAttributes_lookup ks r _ rfl⟩
+
+/-- `--keep`: exactly the named attributes stay -/
+theorem keep_effect (ks : List String) (r : Rec) :
+    ∃ r', keepAttributes ks r = .ok r' ∧ r'.id = r.id ∧ r'.seq = r.seq ∧
+      ∀ k, r'.attrs.lookup k = if k ∈ ks then r.attrs.lookup k else none :=
+  ⟨_, rfl, rfl, rfl, keepAttributes_lookup ks r _ rfl⟩
+
+/-- `--clear`: no attribute is left -/
+theorem clear_effect (r : Rec) : clearAll r = .ok { r with attrs := [] } := rfl
+
+/-- `--length`: `seq_length` is the length of the sequence, nothing else moves -/
+theorem length_effect (r : Rec) :
+    ∃ r', addSeqLength r = .ok r' ∧ r'.id = r.id ∧ r'.seq = r.seq ∧
+      ∀ k, r'.attrs.lookup k = if k = "seq_length" then some (.int r.len) else r.attrs.lookup k := by
+  refine ⟨{ r with attrs := setKey "seq_length" (.int r.len) r.attrs }, by simp [addSeqLength, setAttribute], rfl, rfl, ?_⟩
+  intro k; simp [lookup_setKey]
+
+/-- `--set-tag key=expr` on an ordinary key: the attribute gets the value of the expression on the
+current record; a record on which the expression cannot be evaluated is dropped -/
+theorem set_tag_effect (O : Annotate.Oracles) (k e : String) (r : Rec)
+    (hk : k ≠ "id" ∧ k ≠ "sequence" ∧ k ≠ "qualities") :
+    (∀ v, O.evalExpr e r = some v →
+      ∃ r', editAttribute O k e r = .ok r' ∧ r'.id = r.id ∧ r'.seq = r.seq ∧
+        ∀ k', r'.attrs.lookup k' = if k' = k then some v else r.attrs.lookup k') ∧
+    (O.evalExpr e r = none → editAttribute O k e r = .dropped) := by
+  constructor
+  · intro v hv
+    refine ⟨{ r with attrs := setKey k v r.attrs }, by simp [editAttribute, hv, setAttribute, hk], rfl, rfl, ?_⟩
+    intro k'; simp [lookup_setKey]
+  · intro hv; simp [editAttribute, hv]
+
+/-- `--rename-tag new=old` between ordinary keys: `new` gets the value of `old`, `old` disappears,
+a record without `old` is unchanged -/
+theorem rename_effect (new old : String) (r : Rec)
+    (hn : new ≠ "id" ∧ new ≠ "sequence" ∧ new ≠ "qualities")
+    (ho : old ≠ "id" ∧ old ≠ "sequence" ∧ old ≠ "qualities") (hne : new ≠ old) :
+    (∀ v, r.attrs.lookup old = some v →
+      ∃ r', renameAttribute new old r = .ok r' ∧ r'.id = r.id ∧ r'.seq = r.seq ∧
+        r'.attrs.lookup new = some v ∧ r'.attrs.lookup old = none ∧
+        ∀ k, k ≠ new → k ≠ old → r'.attrs.lookup k = r.attrs.lookup k) ∧
+    (r.attrs.lookup old = none → renameAttribute new old r = .ok r) := by
+  have hg : getAttribute old r = r.attrs.lookup old := by simp [getAttribute, ho]
+  constructor
+  · intro v hv
+    refine ⟨deleteAttribute old { r with attrs := setKey new v r.attrs }, ?_, rfl, rfl, ?_, ?_, ?_⟩
+    · simp [renameAttribute, hg, hv, setAttribute, hn, Outcome.bind]
+    · simp [deleteAttribute, lookup_delKey, lookup_setKey, hne]
+    · simp [deleteAttribute, lookup_delKey]
+    · intro k h1 h2; simp [deleteAttribute, lookup_delKey, lookup_setKey, h1, h2]
+  · intro hv; simp [renameAttribute, hg, hv]
+
+/-- `--set-identifier expr` -/
+theorem set_identifier_effect (O : Annotate.Oracles) (e : String) (r : Rec) :
+    (∀ v, O.evalExpr e r = some v → editId O e r = .ok { r with id := v.shown }) ∧
+    (O.evalExpr e r = none → editId O e r = .dropped) := by
+  constructor
+  · intro v hv; simp [editId, hv]
+  · intro hv; simp [editId, hv]
+
+/-- `--cut from:to` never touches the attributes; with both bounds 0 it is the identity -/
+theorem cut_frame (a b : Int) (r r' : Rec) (h : cutSequence a b r = .ok r') : r'.attrs = r.attrs :=
+  cutSequence_keeps_attrs a b r r' h
+
+/-- test: `--cut 2:5`, `--cut -3:-1` and a cut longer than the record (clamped) on "acgtacgtac" -/
+example : cutSequence 2 5 ⟨"r", [97, 99, 103, 116, 97, 99, 103, 116, 97, 99], []⟩
+      = .ok ⟨"r_sub[2..5]", [99, 103, 116, 97], []⟩ ∧
+    cutSequence (-3) (-1) ⟨"r", [97, 99, 103, 116, 97, 99, 103, 116, 97, 99], []⟩
+      = .ok ⟨"r_sub[9..10]", [97, 99], []⟩ ∧
+    cutSequence 2 50 ⟨"r", [97, 99, 103], []⟩ = .ok ⟨"r_sub[2..3]", [99, 103], []⟩ ∧
+    cutSequence 4 50 ⟨"r", [97, 99, 103], []⟩ = .dropped := by
+  refine ⟨by decide, by decide, by decide, by decide⟩
+
+/-- non-vacuity of the frame theorems: `--delete-tag a --length -S t='…'` on a record with `a`, `b` -/
+def exA : Annotate.Oracles := ⟨fun _ r => some (.str r.id)⟩
+def exAOpts : AnnotOpts := { toBeDeleted := ["a"], setSeqLength := true, evalAttribute := [("t", "sequence.Id()")] }
+def exRec : Rec := ⟨"r1", [97, 99], [("a", .int 1), ("b", .str "x")]⟩
+
+example : annotate exA exAOpts exRec
+    = .ok ⟨"r1", [97, 99], [("b", .str "x"), ("seq_length", .int 2), ("t", .str "r1")]⟩ := by decide
+
+example : ∃ r', annotate exA exAOpts exRec = .ok r' ∧ r'.seq = exRec.seq ∧ r'.id = exRec.id ∧
+    r'.attrs.lookup "b" = exRec.attrs.lookup "b" := by
+  refine ⟨_, rfl, ?_, ?_, ?_⟩
+  · exact annotate_keeps_sequence exA exAOpts exRec _ (by decide) rfl
+  · exact annotate_keeps_identifier exA exAOpts exRec _ (by decide) (by decide) (by decide) (by decide) rfl
+  · exact annotate_keeps_attribute exA exAOpts exRec _ "b" (by decide) (by decide) (by decide) (by decide)
+      (by decide) (by decide) rfl
+
+/-! ## 6. `CLIAnnotationPipeline`: selection, then the edits -/
+
+/-- a record is in the output of obiannotate iff it is selected and no edit fails on it, and then
+it is the edited record; without selection option every record is edited -/
+theorem pipeline_exact (G : Grep.Oracles) (g : GrepOpts) (O : Annotate.Oracles) (o : AnnotOpts) (r : Rec)
+    (hE : ∀ e ∈ g.predicates, (G.evalBool e r).isSome) :
+    pipeline G g O o r =
+      if selects G g r != g.invert then
+        (match annotate O o r with
+         | .ok r' => .out r'
+         | .dropped => .absent
+         | .panic => .panic)
+      else .absent := by
+  have h := grep_exact G g r hE
+  unfold pipeline
+  cases hp : cliPredicate G g with
+  | none =>
+    rw [hp] at h
+    simp only [eval_none, Option.some.injEq] at h
+    simp only [← h, if_true]
+    cases annotate O o r <;> rfl
+  | some p =>
+    rw [hp] at h
+    simp only [eval_some] at h
+    simp only [h]
+    cases selects G g r != g.invert
+    · simp
+    · simp only [if_true]
+      cases annotate O o r <;> rfl
+
 end ObiVerif.Props.C16
